@@ -5,6 +5,7 @@ use crate::engine::{Ctx, Verdict};
 use crate::ensure;
 use crate::gen::{self, D};
 use bdoracle::numeral::{is_json_number, parse_reference};
+use bdoracle::Dec;
 use bigdecimal::BigDecimal;
 use proptest::prelude::*;
 use serde::de::value::{Error as ValueError, F32Deserializer, F64Deserializer, I128Deserializer, I16Deserializer, I32Deserializer, I64Deserializer, I8Deserializer, U128Deserializer, U16Deserializer, U32Deserializer, U64Deserializer, U8Deserializer};
@@ -189,13 +190,37 @@ pub fn check_val(c: &Val) -> Verdict {
             }
         }
     }
+    // 4b. the same adapter through serde_json::Value (dynamically typed JSON)
+    if within_limit {
+        match serde_json::to_value(&WNum { v: x.clone() }) {
+            Err(e) => ensure!(v, false, "C17/json_num-to_value-failed", "to_value through json_num failed for {}: {}", m.show(), e),
+            Ok(val) => match serde_json::from_value::<WNum>(val.clone()) {
+                Ok(w) => ensure!(v, dec_of(&w.v).eq_val(&m), "C17/json_num-value-roundtrip", "json_num round trip through serde_json::Value of {} gave {} (document {})", m.show(), dec_of(&w.v).show(), show(&val.to_string())),
+                Err(e) => ensure!(v, false, "C17/json_num-value-roundtrip-failed", "json_num could not read back the Value {}: {}", show(&val.to_string()), e),
+            },
+        }
+        match serde_json::to_value(&WOpt { v: Some(x.clone()) }) {
+            Err(e) => ensure!(v, false, "C17/json_num_option-to_value-failed", "to_value through json_num_option failed for {}: {}", m.show(), e),
+            Ok(val) => match serde_json::from_value::<WOpt>(val.clone()) {
+                Ok(w) => ensure!(v, w.v.as_ref().map(|y| dec_of(y).eq_val(&m)) == Some(true), "C17/json_num_option-value-roundtrip", "json_num_option round trip through serde_json::Value of {} gave {:?}", m.show(), w.v.as_ref().map(|y| dec_of(y).show())),
+                Err(e) => ensure!(v, false, "C17/json_num_option-value-roundtrip-failed", "json_num_option could not read back the Value {}: {}", show(&val.to_string()), e),
+            },
+        }
+    }
     // 5. Option adapter
     match serde_json::to_string(&WOpt { v: Some(x.clone()) }) {
         Err(e) => ensure!(v, false, "C17/json_num_option-serialize-failed", "json_num_option::serialize of {} failed: {}", m.show(), e),
-        Ok(js) => match serde_json::from_str::<WOpt>(&js) {
-            Ok(w) => ensure!(v, w.v.as_ref().map(|y| dec_of(y).eq_val(&m)) == Some(true), "C17/json_num_option-roundtrip-value", "json_num_option round trip of {} gave {:?}", m.show(), w.v.as_ref().map(|y| dec_of(y).show())),
-            Err(e) => ensure!(v, false, "C17/json_num_option-roundtrip-failed", "json_num_option could not read back {}: {}", show(&js), e),
-        },
+        Ok(js) => {
+            let inner = js.strip_prefix("{\"v\":").and_then(|r| r.strip_suffix('}')).unwrap_or("");
+            let emitted_within = parse_reference(inner.as_bytes()).map(|(_, s)| cfg.serde_limit == 0 || (s as i128).abs() <= cfg.serde_limit as i128).unwrap_or(true);
+            match serde_json::from_str::<WOpt>(&js) {
+                Ok(w) => {
+                    ensure!(v, w.v.as_ref().map(|y| dec_of(y).eq_val(&m)) == Some(true), "C17/json_num_option-roundtrip-value", "json_num_option round trip of {} gave {:?}", m.show(), w.v.as_ref().map(|y| dec_of(y).show()));
+                    ensure!(v, emitted_within, "C17/json_num_option-limit-not-enforced", "json_num_option accepted {} although its scale exceeds the limit {}", show(&js), cfg.serde_limit);
+                }
+                Err(e) => ensure!(v, !emitted_within, "C17/json_num_option-roundtrip-failed", "json_num_option could not read back {}: {}", show(&js), e),
+            }
+        }
     }
     v
 }
@@ -266,9 +291,38 @@ pub fn check_text(c: &JsonText) -> Verdict {
                     Err(e) => ensure!(v, !within, "C17/json_num-rejected", "json_num rejected {}: {}", show(t), e),
                 }
                 if let Ok(WOpt { v: Some(y) }) = &ro {
+                    ensure!(v, within, "C17/json_num_option-limit-not-enforced", "json_num_option accepted {} with scale {}", show(t), w.1);
                     ensure!(v, same(y, w), "C17/json_num_option-not-digit-for-digit", "json_num_option read {} as {:?}", show(t), D::of(y));
                 } else if within {
                     ensure!(v, false, "C17/json_num_option-rejected", "json_num_option rejected or dropped {}", show(t));
+                }
+                // the same JSON number held in a serde_json::Value
+                if within && t.len() <= 400 {
+                    if let Ok(val) = serde_json::from_str::<serde_json::Value>(t) {
+                        let wv = Dec::new(w.0.clone(), w.1 as i128);
+                        let doc = serde_json::json!({ "v": val.clone() });
+                        match serde_json::from_value::<WNum>(doc.clone()) {
+                            Ok(y) => ensure!(v, dec_of(&y.v).eq_val(&wv), "C17/json_num-value-number", "json_num read the Value number {} as {}", show(t), dec_of(&y.v).show()),
+                            Err(e) => ensure!(v, false, "C17/json_num-value-number-rejected", "json_num rejected the Value number {}: {}", show(t), e),
+                        }
+                        match serde_json::from_value::<WOpt>(doc) {
+                            Ok(WOpt { v: Some(y) }) => ensure!(v, dec_of(&y).eq_val(&wv), "C17/json_num_option-value-number", "json_num_option read the Value number {} as {}", show(t), dec_of(&y).show()),
+                            _ => ensure!(v, false, "C17/json_num_option-value-number-rejected", "json_num_option rejected or dropped the Value number {}", show(t)),
+                        }
+                        // plain BigDecimal from a Value number: serde_json hands short numbers over as f64 and the
+                        // visitor must convert floats exactly, so the binary expansion comes back (recorded finding)
+                        match serde_json::from_value::<BigDecimal>(val) {
+                            Ok(y) => {
+                                let got = dec_of(&y);
+                                if !got.eq_val(&wv) {
+                                    let through_f64 = t.parse::<f64>().ok().and_then(|f| bdoracle::floatbits::dec_of_f64_bits(f.to_bits())).map(|d| d.eq_val(&got)).unwrap_or(false);
+                                    let sig = if through_f64 { "C17/value-number-through-f64" } else { "C17/value-number-wrong" };
+                                    ensure!(v, false, sig, "BigDecimal read from the Value number {} is {}", show(t), got.show());
+                                }
+                            }
+                            Err(e) => ensure!(v, false, "C17/value-number-rejected", "BigDecimal rejected the Value number {}: {}", show(t), e),
+                        }
+                    }
                 }
             }
             None => {
@@ -394,6 +448,15 @@ fn json_number_text(max_digits: usize) -> BoxedStrategy<String> {
         any::<u64>(),
     )
         .prop_map(|(neg, int, frac, exp, esign, upper, seed)| {
+            // a few exponents that do not fit an i64 at all (2^63, 2^63 + small, 2^64, 10^20)
+            let huge: Option<&str> = match (seed % 40, exp) {
+                (0, Some(_)) => Some("9223372036854775808"),
+                (1, Some(_)) => Some("9223372036854775811"),
+                (2, Some(_)) => Some("-9223372036854775809"),
+                (3, Some(_)) => Some("18446744073709551616"),
+                (4, Some(_)) => Some("100000000000000000000"),
+                _ => None,
+            };
             let mut s = String::new();
             if neg {
                 s.push('-');
@@ -408,7 +471,10 @@ fn json_number_text(max_digits: usize) -> BoxedStrategy<String> {
                 }
                 s.push_str(&f);
             }
-            if let Some(e) = exp {
+            if let Some(h) = huge {
+                s.push(if upper { 'E' } else { 'e' });
+                s.push_str(h);
+            } else if let Some(e) = exp {
                 s.push(if upper { 'E' } else { 'e' });
                 if e >= 0 && esign == 1 {
                     s.push('+');
